@@ -57,6 +57,14 @@ CHECKS = {
    "process-level monitor: marker files written before Done(), /proc parentage and liveness after the caller exited; schedules forced with the verif pause hook in the launcher",
    "A harness binary plays caller, launcher (glb code) and daemon. Launch's return is judged by file existence at that instant (marker and pre-Done file carrying the returned pid), the daemon must be alive, re-parented and answer a ping after the caller exited, the launcher must be gone. Schedules: natural with Done() after 0/5/200 ms, forced 'Done() precedes the launcher's wait' via GLB_VERIF_PAUSE, 2 and 8 concurrent Launch calls, mixed. 120 (quick) / 3 600 (thorough) scenarios.",
    "Needs fork/exec, signals and /proc; only these schedule classes are forced, other timings are sampled by repetition.", "§3 C20"),
+ "C16": ("shellesc", "exploration",
+   "the real dash, bash and bash --posix reading the escaped text (argv printed by an external helper, canary files) plus an independent POSIX quoting lexer; exhaustive short strings over the shell's special characters",
+   "Every string of length up to 4 (quick) / 5 (thorough) over the 15-character alphabet of shell specials, the same with a ~/ prefix, 2*10^4/10^6 random non-NUL byte strings up to 64 bytes and a hostile corpus are escaped by the real functions, written into scripts and executed by three shell modes x two locales (x two HOME values for the tilde form); the NUL-split argv must equal the inputs, stderr empty, exit 0, working directory unchanged (canary). A quoting model must see exactly one word with no active expansion trigger. Positive controls prove the oracles can fire.",
+   "Only dash and bash are installed; other POSIX shells are covered by the lexer model only.", "§3 C16"),
+ "C09": ("cfgprio", "exploration",
+   "value-first reference-model monitor: expected = highest-priority source, sources really set (argv, environment, JSON file / CFG_CONFIG_B64); exhaustive type x source-mask lattice, seeded random structs",
+   "Structs are built with reflect.StructOf; per field a 4-bit mask of {tag default, JSON, env, cli} and one typed value per source are chosen first and rendered into each source's syntax, so the oracle never parses. The lattice 9 types x 16 masks x nesting depth x tag syntax x JSON carrier x cli spelling x value classes (zero, extremes, empty text, awkward strings) is run completely (2*10^5 parses), plus 5*10^4/1.6*10^6 random structs of 1-12 fields with independent masks.",
+   "JSON null, unknown and case-folded JSON keys are not generated; env names come from a hand-written pool.", "§3 C09"),
 }
 BUILT = set(CHECKS)
 
